@@ -180,7 +180,12 @@ class Interp:
         if isinstance(e, ast.IfExp):
             return self.ev(e.body) if self.ev(e.test) else self.ev(e.orelse)
         if isinstance(e, (ast.Tuple, ast.List)):
-            vals = [self.ev(x) for x in e.elts]
+            vals = []
+            for x in e.elts:
+                if isinstance(x, ast.Starred):  # (a, *rest): the elements of `rest` spliced in
+                    vals.extend(list(self.ev(x.value)))
+                else:
+                    vals.append(self.ev(x))
             return tuple(vals) if isinstance(e, ast.Tuple) else vals
         if isinstance(e, ast.Call):
             return self.call(e)
@@ -641,6 +646,10 @@ def stdlib_resolver(repo, module, extra=None):
             return _PURE_BUILTINS.get(attr, fn) if head == "itertools" else fn
         if d == "copy.deepcopy":
             return _copy.deepcopy
+        # a module-level name bound to an expression (e.g. a hoisted tuple of types): its value is that expression's
+        ma = repo.module_assign(d)
+        if ma is not None:
+            return Interp({}, resolve_name=stdlib_resolver(repo, ma[0], extra)).ev(ma[1])
         raise Unsupported(f"free name {name!r}")
 
     return res
